@@ -137,20 +137,34 @@ def run_job(job, rec):
             th2 = theta.copy()
             guarded(inv.calculate_posterior, th2)
             guarded(inv.marginal_likelihood, th2)
-            th2[theta_m.size] += 0.3
-            th2[0] += 0.1 * y_scale
-            K2 = R.data_cov(spec, pos, th2[theta_m.size:]) + np.diag(jit) * np.exp(0.6)
-            m2 = R.mean(mean_name, pos, th2[: theta_m.size], pos)
-            J2 = A @ K2 @ A.T + S
-            if max(np.linalg.cond(J2), np.linalg.cond(np.eye(npar) + K2 @ W)) < 1e7:
-                ref_m2 = m2 + K2 @ A.T @ np.linalg.solve(J2, y - A @ m2)
-                o2 = guarded(inv.calculate_posterior, th2)
-                mo2 = guarded(inv.calculate_posterior_mean, th2)
-                rec.count("in_place_theta_updates")
-                tol2 = (fac + 1e-8) * (np.abs(m2).max() + np.abs(ref_m2).max() + 1e-300) * 10
-                ok2 = (not isinstance(o2, Raised)) and (not isinstance(mo2, Raised)) and bool(np.abs(np.asarray(o2[0]) - ref_m2).max() <= tol2) and bool(np.abs(np.asarray(mo2) - ref_m2).max() <= tol2)
-                rec.check(ok2, "stale-after-in-place-update",
-                          lambda: f"{desc}: posterior mean after an in-place change of the theta array differs from the closed form at the new values", rec.context)
+            cpi = {a for a, _ in cp_positions(spec, npar, d, pos)} | {a + 1 for a, _ in cp_positions(spec, npar, d, pos)}
+            free = [i for i in range(theta_c.size) if i not in cpi]
+            for upd in range(2):   # two successive in-place updates: a cache keyed on the array object is stale on the second
+                for k0 in rng.permutation(free)[:2]:
+                    th2[theta_m.size + int(k0)] += float(rng.uniform(0.3, 0.7)) * rng.choice([-1, 1])
+                th2[0] += 0.1 * y_scale
+                K2 = R.data_cov(spec, pos, th2[theta_m.size:])
+                K2 = K2 + np.diag(np.clip(np.diag(inv.cov.build_covariance(th2[theta_m.size:].copy())) - np.diag(K2), 0, None))
+                m2 = R.mean(mean_name, pos, th2[: theta_m.size], pos)
+                J2 = A @ K2 @ A.T + S
+                c2 = max(np.linalg.cond(J2), np.linalg.cond(np.eye(npar) + K2 @ W))
+                if c2 < 1e7:
+                    KAt2 = K2 @ A.T
+                    ref_m2 = m2 + KAt2 @ np.linalg.solve(J2, y - A @ m2)
+                    ref_c2 = K2 - KAt2 @ np.linalg.solve(J2, KAt2.T)
+                    ev2 = R.mvn_logpdf_no_const(y, A @ m2, J2)
+                    o2 = guarded(inv.calculate_posterior, th2)
+                    mo2 = guarded(inv.calculate_posterior_mean, th2)
+                    e2 = guarded(inv.marginal_likelihood, th2)
+                    rec.count("in_place_theta_updates")
+                    f2 = 5000 * eps * c2
+                    tol_m2 = f2 * (np.abs(m2).max() + (np.abs(KAt2) @ np.abs(np.linalg.solve(J2, y - A @ m2))).max() + 1e-300)
+                    es2 = abs((y - A @ m2) @ np.linalg.solve(J2, y - A @ m2)) + abs(np.linalg.slogdet(J2)[1]) + nd
+                    ok2 = not any(isinstance(v, Raised) for v in (o2, mo2, e2)) and bool(np.abs(np.asarray(o2[0]) - ref_m2).max() <= tol_m2) \
+                        and bool(np.abs(np.asarray(mo2) - ref_m2).max() <= tol_m2) and bool(np.abs(np.asarray(o2[1]) - ref_c2).max() <= f2 * np.abs(K2).max()) \
+                        and abs(float(e2) - ev2) <= f2 * es2
+                    rec.check(ok2, "stale-after-in-place-update",
+                              lambda: f"{desc}: after covariance hyper-parameters were changed in place in the same theta array, the posterior / evidence are not those of the new values", rec.context)
 
         # ---- evidence and its gradient
         ref_ev = R.mvn_logpdf_no_const(y, A @ m, J)
